@@ -184,11 +184,99 @@ class CoopLock:
         self.release()
 
 
+class CoopEvent:
+    """threading.Event stand-in: a waiting thread is 'blocked' for the scheduler until the event is set"""
+
+    def __init__(self):
+        self._flag = False
+
+    @property
+    def locked_by(self):  # what Sched.enabled() looks at: None = whoever waits here can go on
+        return None if self._flag else "unset-event"
+
+    def is_set(self):
+        return self._flag
+
+    def set(self):
+        self._flag = True
+
+    def clear(self):
+        self._flag = False
+
+    def wait(self, timeout=None):
+        s = Sched.current
+        tid = s.tid() if s is not None else None
+        if tid is None:
+            if not self._flag:
+                raise LostControl("unscheduled thread waits for a cooperative event")
+            return True
+        s.yield_point(("event-wait", s.lock_names.setdefault(id(self), len(s.lock_names))))
+        while not self._flag:
+            s.state[tid] = "blocked"
+            s.blocked_on[tid] = self
+            s._dispatch(tid)
+        s.state[tid] = "ready"
+        return True
+
+
+class CoopCondition:
+    """threading.Condition stand-in over a cooperative lock (waits without timeouts: a wait that nobody ends is a deadlock)"""
+
+    def __init__(self, lock=None):
+        self._lock = lock if lock is not None else CoopLock()
+        self._waiters = []
+        self.acquire, self.release = self._lock.acquire, self._lock.release
+
+    def __enter__(self):
+        self._lock.acquire()
+        return self
+
+    def __exit__(self, *a):
+        self._lock.release()
+
+    def wait(self, timeout=None):
+        w = CoopEvent()
+        self._waiters.append(w)
+        self._lock.release()
+        try:
+            w.wait()
+        finally:
+            self._lock.acquire()
+        return True
+
+    def wait_for(self, predicate, timeout=None):
+        while not predicate():
+            self.wait()
+        return True
+
+    def notify(self, n=1):
+        for w in self._waiters[:n]:
+            w.set()
+        del self._waiters[:n]
+
+    def notify_all(self):
+        self.notify(len(self._waiters))
+
+
+def coop_future_class():
+    """concurrent.futures.Future whose result() / set_result() synchronise through a cooperative condition"""
+    import concurrent.futures
+
+    class CoopFuture(concurrent.futures.Future):
+        def __init__(self):
+            super().__init__()
+            self._condition = CoopCondition()
+
+    return CoopFuture
+
+
 def shim_namespace():
-    """a stand-in for the ``threading`` module whose Lock/RLock are cooperative"""
+    """a stand-in for the ``threading`` module whose Lock/RLock/Event/Condition are cooperative"""
     ns = types.SimpleNamespace(**{k: getattr(threading, k) for k in dir(threading) if not k.startswith("__")})
     ns.Lock = CoopLock
     ns.RLock = CoopLock  # re-entrancy is not needed by the code under test; a re-entrant acquire shows up as deadlock
+    ns.Event = CoopEvent
+    ns.Condition = CoopCondition
     return ns
 
 
